@@ -40,6 +40,10 @@ def _norm(s, n=70):
     return s if len(s) <= n else s[:n - 3] + "..."
 
 
+import threading
+_EXTRACT_LOCK = threading.Lock()
+
+
 class UnitResult:
     def __init__(self, name):
         self.name = name
@@ -108,7 +112,9 @@ def run_unit(name, repo=None, rlimit=None, outdir=None, extra_args=(), solver=No
     res = UnitResult(name)
     t0 = time.time()
     try:
-        unit = extract.extract_unit(name, repo)
+        with _EXTRACT_LOCK:      # the extractor keeps per-extraction global state (generated literals): one at a time
+            unit = extract.extract_unit(name, repo)
+            _pre_path = extract.write_unit(unit, outdir or os.path.join(VERIF, "build"))
     except extract.Inconclusive as e:
         res.status, res.reason = "inconclusive", str(e)
         res.wall_s = time.time() - t0
@@ -120,7 +126,7 @@ def run_unit(name, repo=None, rlimit=None, outdir=None, extra_args=(), solver=No
     res.unit = unit
     res.degraded = list(unit.lost_hints)
     outdir = outdir or os.path.join(VERIF, "build")
-    path = extract.write_unit(unit, outdir)
+    path = _pre_path
     cmd = ["verus", os.path.basename(path), "--output-json", "--time", "--error-format=json",
            "--multiple-errors", "2", "--rlimit", str(rlimit or 30), "--num-threads", "4"]
     if solver == "cvc5":
@@ -289,9 +295,10 @@ def run_unit(name, repo=None, rlimit=None, outdir=None, extra_args=(), solver=No
                         drop.add((f["qual"], ins["tl"]))
         if drop:
             try:
-                unit2 = extract.extract_unit(name, repo, drop=drop)
-                unit2.name = name + "_nohint"
-                path2 = extract.write_unit(unit2, outdir)
+                with _EXTRACT_LOCK:
+                    unit2 = extract.extract_unit(name, repo, drop=drop)
+                    unit2.name = name + "_nohint"
+                    path2 = extract.write_unit(unit2, outdir)
                 fns2 = set(q for q, _ in drop)
                 sf, srl = _split_run(unit2, path2, outdir, fns2, rlimit, single_ok=True)
                 if sf is not None:
